@@ -5,7 +5,8 @@
 From Coq Require Import ZArith Floats List Bool Lia Reals.
 From SyGen Require Import SrcConstants.
 From SyModel Require Import Threshold.
-From SyProofs Require Import Threshold_proofs Threshold_std.
+From SyModel Require Import Engine.
+From SyProofs Require Import Threshold_proofs Threshold_std Engine_proofs.
 Open Scope Z_scope.
 
 (* the coded floating-point test, evaluated by the kernel, for every destination of up to NMAX = 200 entries *)
@@ -41,6 +42,23 @@ Print Assumptions C07_default_protects_empty_source.
 Theorem C07_threshold_range : forall t, threshold_valid t = true <-> 0 <= t <= 100.
 Proof. intro t. unfold threshold_valid, THRESHOLD_MAX. rewrite andb_true_iff, Z.leb_le, Z.leb_le. reflexivity. Qed.
 Print Assumptions C07_threshold_range.
+
+(* placement: when the guard fires the run stops before changing anything -- no entry is created, updated
+   or deleted, no event is reported -- with a non-zero status; and it fires whenever the test says so *)
+Theorem C07_refusal_changes_nothing : forall rf c now U src dst,
+  r_refused (run rf c now U src dst) = true ->
+  r_fs (run rf c now U src dst) = dst /\ exit_status c (run rf c now U src dst) = 1 /\ r_events (run rf c now U src dst) = nil.
+Proof. exact refusal_changes_nothing. Qed.
+Print Assumptions C07_refusal_changes_nothing.
+
+Theorem C07_guard_fires : forall rf c now U src dst,
+  let listing := filter (fun p => match dst p with Some _ => true | None => false end) U in
+  let dels := plan_deletions src listing in
+  c_delete c = true -> c_force_delete c = false -> dels <> nil ->
+  rf (Z.of_nat (length dels)) (Z.of_nat (length listing)) (c_threshold c) = true ->
+  r_refused (run rf c now U src dst) = true.
+Proof. exact refuses_when_guard_fires. Qed.
+Print Assumptions C07_guard_fires.
 
 (* Observation (not a violation of C07): exactly at the threshold the float test may refuse although the
    exact ratio does not exceed it *)
